@@ -59,6 +59,8 @@ func c12Case(r *core.Run, idx int, rng *rand.Rand) {
 		attrLoc, ssoLoc, entity = "https://"+host+"/saml/attribute", "https://"+host+"/saml/SSO", "https://"+host+"/saml/metadata"
 	}
 	d := stdSP(0)
+	// what the requester's own metadata says about signed assertions changes nothing: user data leaves in a signed one
+	d.WantAssertionsSigned = []string{"", "", "true", "false", "0", "1"}[rng.Intn(6)]
 	mustRegister(e.W, d, "appA")
 	mustRegister(e.W, stdSP(1), "appB")
 	hostile := idx%4 == 0
